@@ -134,8 +134,9 @@ def jobs_runs(evs, world=None):
         if name == 'JsSetup':
             rec['own'] = bool(ev['own'])
             rec['j'] = max(ev['j'], 1) if ev['own'] else 0
-            rec['par'] = parent_job(pid)
             rec['top'] = (pid == d)
+            # inside its own domain a nested `redo -jN` owns the token its parent script lent it
+            rec['par'] = 0 if (rec['top'] and rec['own']) else parent_job(pid)
         runs[d].append(rec)
     return [runs[d] for d in order]
 
